@@ -1351,12 +1351,13 @@ theorem asIvl_iso {v v' : Arith.Opd} (h : VSub v v') (hv : Valid v) (hv' : Valid
 
 theorem forall₂_eq_self {α : Type} (l : List α) : List.Forall₂ (· = ·) l l := List.forall₂_refl l
 
-/-- the focal intervals handed to `stacking` are nested, row by row -/
-theorem sliceImages_iso (pv levels : List Rat) (t : ITree) {vars vars' : List PB} (h : List.Forall₂ PSub vars vars')
-    (im im' : List (Rat × Rat)) (e : sliceImages pv levels t vars = .ok im) (e' : sliceImages pv levels t vars' = .ok im') :
+/-- the focal intervals handed to `stacking` are nested, row by row — for ANY list of level rows, as long as it is
+the same list in both runs -/
+theorem rowImages_iso (pv : List Rat) (rows : List (List Rat)) (t : ITree) {vars vars' : List PB}
+    (h : List.Forall₂ PSub vars vars') (im im' : List (Rat × Rat))
+    (e : rowImages pv rows t vars = .ok im) (e' : rowImages pv rows t vars' = .ok im') :
     List.Forall₂ (fun c c' => (c'.1 ≤ c.1 ∧ c.2 ≤ c'.2) ∧ c.1 ≤ c.2 ∧ c'.1 ≤ c'.2) im im' := by
-  unfold sliceImages at e e'
-  rw [← h.length_eq] at e'
+  unfold rowImages at e e'
   refine mapM_forall₂ _ _ (· = ·) _ (forall₂_eq_self _) ?_ im im' e e'
   intro row row' hrow c c' hc hc'
   subst hrow
@@ -1367,6 +1368,13 @@ theorem sliceImages_iso (pv levels : List Rat) (t : ITree) {vars vars' : List PB
   obtain ⟨bs, bv, bv'⟩ := cutBox_iso pv h row box box' eb eb'
   obtain ⟨sv, vv, vv'⟩ := itree_iso t bv bv' bs v v' ev ev'
   exact asIvl_iso sv vv vv' c c' h3 h3'
+
+theorem sliceImages_iso (pv levels : List Rat) (t : ITree) {vars vars' : List PB} (h : List.Forall₂ PSub vars vars')
+    (im im' : List (Rat × Rat)) (e : sliceImages pv levels t vars = .ok im) (e' : sliceImages pv levels t vars' = .ok im') :
+    List.Forall₂ (fun c c' => (c'.1 ≤ c.1 ∧ c.2 ≤ c'.2) ∧ c.1 ≤ c.2 ∧ c'.1 ≤ c'.2) im im' := by
+  unfold sliceImages at e e'
+  rw [← h.length_eq] at e'
+  exact rowImages_iso pv _ t h im im' e e'
 
 theorem split_images {im im' : List (Rat × Rat)}
     (h : List.Forall₂ (fun c c' => (c'.1 ≤ c.1 ∧ c.2 ≤ c'.2) ∧ c.1 ≤ c.2 ∧ c'.1 ≤ c'.2) im im') :
@@ -1428,6 +1436,20 @@ example : LE (stackBound [1/4, 1/2, 3/4, 1] [0, 3, 1] [1/4, 1/4, 1/2]) (stackBou
   stackBound_mono (by decide +kernel) (by decide +kernel) (by decide +kernel)
 example : alphaCut [1/10, 1/2, 9/10] ⟨[1, 2, 3], [2, 3, 4]⟩ (3/5) = .ok (2, 3) := by decide +kernel
 example : nearestIdx [1/10, 1/2, 9/10] (3/10) = 0 := by decide +kernel   -- a tie: `argmin` keeps the first
+
+/-- **interval Monte Carlo with the same level rows in both runs is isotone** (the rows are what the dependency
+object draws: `u_sample(n_sam, random_state)`; reproducibility of that draw is a runtime fact checked by the oracle) -/
+theorem imc_iso (pv : List Rat) (rows : List (List Rat)) (t : ITree) (w : Rat) (hw : 0 ≤ w) (hg : ∀ p ∈ pv, 0 < p)
+    {vars vars' : List PB} (h : List.Forall₂ PSub vars vars') (R R' : PB)
+    (e : imc pv rows t vars w = .ok R) (e' : imc pv rows t vars' w = .ok R') : PSub R R' := by
+  unfold imc at e e'
+  obtain ⟨im, ei, h2⟩ := bind_ok e
+  obtain ⟨im', ei', h2'⟩ := bind_ok e'
+  have hf := rowImages_iso pv rows t h im im' ei ei'
+  obtain ⟨s1, s2, s3, s4⟩ := split_images hf
+  have hlen : im'.length = im.length := hf.length_eq.symm
+  rw [hlen] at h2'
+  exact stacking_iso pv _ _ _ _ _ (fun x hx => by rw [List.eq_of_mem_replicate hx]; exact hw) hg s1 s2 s3 s4 R R' h2 h2'
 
 end Mixed
 
